@@ -782,7 +782,7 @@ def k8(prog, tier="quick"):
     styles = ["none", "all", "some", "throw-late", "throw-early", "throw-other"]
     if tier != "thorough":
         filesets = [filesets[i] for i in (0, 1, 2, 3, 4)]
-        extras = [extras[i] for i in (0, 1, 3, 4, 5, 7)]
+        extras = [extras[i] for i in (0, 1, 3, 4, 5, 6, 7)]     # 5 and 6: a literal before an evaluated argument and the other way round
     n = 0
     bad = {}
     try:
